@@ -542,7 +542,7 @@ pub fn spell(m: &mut M, r: &mut Rng, n: u64) {
         }
         // sums
         if i % 4 == 0 {
-            let cnt = r.range(0, 12) as usize;
+            let cnt = if i % 16 == 0 { crate::gen::long_len(r) } else { r.range(0, 12) } as usize;
             let mut fl = Vec::new();
             for _ in 0..cnt {
                 fl.push(r.f64_in(-60, 60));
@@ -550,7 +550,8 @@ pub fn spell(m: &mut M, r: &mut Rng, n: u64) {
             for sp in ["sum_v", "sum_r", "fold"] {
                 m.call("arith", "sum", sp, Some(5), &[A::FL(fl.clone())]);
             }
-            let rl: Vec<usize> = (0..r.range(0, 5) as usize).map(|_| r.below(5) as usize).collect();
+            let nrl = if i % 16 == 8 { crate::gen::long_len(r) } else { r.range(0, 5) } as usize;
+            let rl: Vec<usize> = (0..nrl).map(|_| r.below(5) as usize).collect();
             for sp in ["sum_v", "sum_r", "fold"] {
                 m.call("arith", "sum", sp, Some(5), &[A::RL(rl.clone())]);
             }
